@@ -31,10 +31,8 @@ _c("C03",
    "2-3 pages x 1-2 entries, <= 6 archive entries with scaled records-per-chunk; TVFS and ContentResolver outside; two root-header "
    "findings recorded in known_findings.json.")
 _c("C05",
-   "Bounded model checking of the local index (IndexManager + update section) and ResidencyDb as maps: concrete operation-kind "
-   "sequences with all data symbolic, compared step by step with a 'latest value per key' model, plus one-step/record-level harnesses.",
-   "Histories of a few steps, 3-4 key alphabet in one bucket; update section scaled under cfg(kani) (2 pages x 2 entries); save_index "
-   "replaced by an Ok/Err model; reload from real files outside.")
+   "Bounded model checking of one bucket's update section (append / search / all_entries / byte round trip for 1-5 fully symbolic entries incl. equal keys and tombstones, on the scaled section) and of the private search_both_sections kernel (sorted + update entries from a key alphabet, symbolic statuses) against a 'latest value per key' model.",
+   "The IndexManager public-API histories, the flush merge and ResidencyDb histories are OUTSIDE (measured: a Vec inside a BTreeMap/array value is opaque to CBMC, symex > 600 s or OOM); update section scaled under cfg(kani) to 2 pages x 2 entries; one defect (remove_entry) demonstrated natively and fixed.")
 _c("C06",
    "The real save routines run symbolically over an I/O trace model of std::fs; the solver decides, for every input inside the bounds, "
    "the atomic-replace protocol invariants I1-I4 (data only to the temp file, complete + fsynced before rename, nothing written after, "
@@ -84,10 +82,8 @@ _c("C19",
    "Mask sizes and file counts concrete per harness (symbolic heap sizes do not finish); queries on 1 file in quick (2 in thorough); "
    "builder constructed through a cfg(kani) shim without the name HashMap.")
 _c("C20",
-   "Bounded model checking of the path/URL construction kernels on short symbolic strings: no panic for any content-key length, "
-   "lexically normalised cache paths stay under the configured directory, accepted endpoints cannot escape.",
-   "Strings of a few bytes over a small alphabet; format!-based typed-key formatting as listed per harness; real I/O outside.")
-
+   "Bounded model checking of the path/URL construction kernels: build_url never panics for content keys of 0..32 bytes; validate_endpoint equals whitelist AND no leading '/' AND no '.'/'..' segment for every ASCII string of 1-2 (3, 5 thorough) bytes and accepted endpoints stay inside cache_dir/api/ribbit; DiskCache::get_file_path on concrete adversarial and well-formed keys.",
+   "get_file_path is checked on CONCRETE keys only since its repair (symbolic keys no longer finish): a regression list, not a for-all claim; typed-key as_cache_key formatting/injectivity, download/download_range, hashed sub-directories and real I/O are outside.")
 NA["C04"] = "storage path = memmap2 + DashMap + parking_lot/tokio locks + async; constructing them aborts kani-compiler 0.68 (TLS-destructor ICE) and mmap has no model; no separable kernel"
 NA["C10"] = "MemoryCache (DashMap) and DiskCache (tokio Semaphore/RwLock) abort kani-compiler (ICE, probed); eviction arithmetic is not a separate function; no other installed engine executes Rust symbolically"
 NA["C11"] = "interleavings of concurrent tasks: Kani/CBMC's Rust front end is sequential; same ICE as C10"
@@ -96,7 +92,7 @@ NA["C13"] = "reqwest/TCP/tokio timeouts/DashMap-backed ProtocolCache; the only p
 NA["C15"] = "axum/TCP server + format!-built text + mail-parser client: sockets not encodable, string formatting of arbitrary DB strings beyond the SAT back end"
 
 # properties whose harnesses are not (yet) all green are kept out of the manifest until their quick tier passes
-PENDING = ["C01", "C05", "C07", "C08", "C14", "C16", "C18", "C20"]
+PENDING = []
 for _p in PENDING:
     if _p in CLAIMED:
         del CLAIMED[_p]
